@@ -31,7 +31,7 @@ type seg struct {
 // (vertical tab, form feed, NEL, no-break space, line separator, ideographic space): those are text
 var wsRuns = []string{"", " ", "  ", "\n", "\t", "\r\n", " \n\t ", "\n\n", " \r",
 	"\v", "\f", "\u0085", "\u00a0", "\u2028", "\u3000", " \u00a0 ", "\f\n", "\n\v", "\u00a0\t", " \u2003"}
-var textBitsC03 = []string{"a", "b c", "é", "日本", "x", "<p>", "&amp;", "'", `"`, "-", "- ", " -", "--", "0", ".", "\\", "\x00", "\xff"}
+var textBitsC03 = []string{"a", "b c", "é", "日本", "x", "<p>", "&amp;", "'", `"`, "-", "- ", " -", "--", "0", ".", "\\", "\x00", "\xff", "č", "†", "不", "Р", "Ċ", "ĉ", "\U0001f60d"}
 
 func isTrimSpace(c byte) bool { return c == ' ' || c == '\t' || c == '\r' || c == '\n' }
 
